@@ -61,6 +61,9 @@ func (r *Run) SetConfig(tag string) {
 }
 
 func (r *Run) Rule(name, statement string, floor int) {
+	if _, aliased := r.alias[name]; aliased {
+		return // declared by the owning property; here its obligations go to another rule (or are dropped)
+	}
 	r.Rules[name] = statement
 	if floor > r.Floors[name] {
 		r.Floors[name] = floor
